@@ -71,15 +71,15 @@ def asEntries : SFields → SEntries
   | .cons key _ v rest => .cons (.str key) v (asEntries rest)
 
 theorem keysAreStrings_asEntries : ∀ (fs : SFields), keysAreStrings (asEntries fs) = .ok ()
-  | .nil => by simp [asEntries, keysAreStrings]
+  | .nil => by simp [asEntries, keysAreStrings, specKey_eq, normErr_ok, normErr_error]
   | .cons key al v rest => by
-    simp [asEntries, keysAreStrings, keyStr, bind, Except.bind, keysAreStrings_asEntries rest]
+    simp [asEntries, keysAreStrings, specKey_eq, normErr_ok, normErr_error, keyStr, bind, Except.bind, keysAreStrings_asEntries rest]
 
 theorem interpByKey_asEntries (ext : Ext) (name : String) (dt : DataType) (n : Bool) (md : Metadata) :
     ∀ (fs : SFields), interpByKey ext name dt n md (asEntries fs) = interpByName ext name dt n md fs
-  | .nil => by simp [asEntries, interpByKey, interpByName]
+  | .nil => by simp [asEntries, interpByKey, keyOf_eq, interpByName]
   | .cons key al v rest => by
-    simp only [asEntries, interpByKey, interpByName, interpByKey_asEntries ext name dt n md rest, keyStr,
+    simp only [asEntries, interpByKey, keyOf_eq, interpByName, interpByKey_asEntries ext name dt n md rest, keyStr,
       Except.toOption]
     have : (some key == some name) = (key == name) := by simp
     simp only [this]
